@@ -110,8 +110,14 @@ func (d *driver) minimise(sc *sim.Scenario) *sim.Scenario {
 	if cur.Property == "C12" && cur.C12 != nil {
 		cur = d.minimiseC12(cur, try)
 	}
-	// pass 2: drop parts of the configuration tree
+	// pass 2: drop parts of the configuration tree (not for violations whose
+	// oracle depends on the reference table staying in step with the
+	// configuration)
 	var cfg map[string]any
+	if strings.Contains(key, "stale-after-source-change") {
+		fmt.Printf("minimised %s in %d candidate runs (configuration kept: the oracle uses the scenario's reference table)\n", key, tries)
+		return cur
+	}
 	if err := yaml.Unmarshal([]byte(cur.World.Config), &cfg); err == nil {
 		changed := true
 		for changed && budget > 0 {
